@@ -687,6 +687,11 @@ class Zone(dns.transaction.TransactionManager):
             else:
                 txt_is_utf8 = style.txt_is_utf8
             style = style.replace(idna_codec=idna_codec, txt_is_utf8=txt_is_utf8)
+        if style.want_generic and style.origin is None and self.relativize:
+            # The generic rdata syntax needs absolute names.  Names stored in a
+            # relativized zone are already relative, so this does not change how
+            # they are printed.
+            style = style.replace(origin=self.origin, relativize=True)
         if isinstance(f, str):
             cm: contextlib.AbstractContextManager = open(f, "wb")
         else:
